@@ -120,8 +120,13 @@ def run(ctx, monitors=MONITORS):
                         workers=4, timeout=300)
     if not q:
         ctx.model_check("DaemonRouting", "MC_DaemonRouting_big.cfg", workers=4, timeout=900)
+    if not r.finished and not r.violated:
+        # (a JVM that was starved or killed on a busy machine: once more before giving up)
+        ctx.inconclusive[:] = [m for m in ctx.inconclusive if "MC_DaemonRouting.cfg" not in m]
+        r = ctx.model_check("DaemonRouting", "MC_DaemonRouting.cfg", name="MC_DaemonRouting-retry",
+                            extra=["-dump", "dot,actionlabels", "graph.dot"], workers=4, timeout=600)
     if not r.finished:
-        raise core.Inconclusive("DaemonRouting model checking did not finish")
+        raise core.Inconclusive("DaemonRouting model checking did not finish (%s)\n%s" % (r.violated or r.error, r.out[-1500:]))
     # 2. transition tour of the complete graph
     inits, edges = parse_graph(os.path.join(r.workdir, "graph.dot"))
     if not inits or not edges:
